@@ -40,6 +40,7 @@ def main():
     meta = os.path.join(src, "meta%s.json" % suffix)
     letter = "abcdefghijklmnopqrstuvwxyz"[(int(suffix) - 1 if suffix else 0) + offset]
     sid = "%s%s" % (pid, letter)
+    stage = None
     dest = os.path.join(VERIF, "seeded", sid)
     if not os.path.exists(patch) and os.path.exists(os.path.join(dest, "patch.diff")):
         # the sub-agent's worktree is gone: re-verify from the filed copy.  The
@@ -146,6 +147,8 @@ def main():
         return rec
     finally:
         shutil.rmtree(w, ignore_errors=True)
+        if stage:
+            shutil.rmtree(stage, ignore_errors=True)
         shutil.rmtree(os.path.join(VERIF, "build", "alt", os.path.basename(w)), ignore_errors=True)
         with open(os.path.join(dest, "meta.json"), "w") as f:
             json.dump(rec, f, indent=1)
